@@ -98,6 +98,7 @@ with dr_node (fuel : nat) (D : defs) (inp : list (item * val)) (i : item) {struc
             end
           else
             match dr_body f D inp (fst i) (snd i) [] (cl_body cl) with
+            | (Val v, d) => (none_check cl v, RObj (fst i) :: d)
             | (r, d) => (r, RObj (fst i) :: d)
             end
       end
@@ -171,8 +172,7 @@ Proof.
       rewrite <- (IHb D inp (fst i) (snd i) [] (cl_body cl)).
       destruct (dr_body f D inp (fst i) (snd i) [] (cl_body cl)) as [[v|k|] d]; reflexivity.
     + rewrite <- (IHb D inp (fst i) (snd i) [] (cl_body cl)).
-      destruct (dr_body f D inp (fst i) (snd i) [] (cl_body cl)) as [[v|k|] d]; simpl; try reflexivity.
-      unfold none_check. now rewrite Ec.
+      destruct (dr_body f D inp (fst i) (snd i) [] (cl_body cl)) as [[v|k|] d]; simpl; reflexivity.
   - intros D inp me args locs rest. destruct rest as [|s more]; simpl; [reflexivity|].
     destruct s as [e|e h].
     + rewrite <- (IHe D inp me args locs e). destruct (dr_expr f D inp me args locs e) as [[v|k|] d1]; simpl; try reflexivity.
@@ -258,8 +258,10 @@ Proof.
         -- now rewrite (IHb _ _ _ _ _ _ _ _ E1 ltac:(discriminate) f' Hle).
         -- now rewrite (IHb _ _ _ _ _ _ _ _ E1 ltac:(discriminate) f' Hle).
         -- pinv. congruence.
-      * destruct (dr_body f D inp (fst i) (snd i) [] (cl_body cl)) as [r1 d1] eqn:E1. pinv.
-        now rewrite (IHb _ _ _ _ _ _ _ _ E1 Hr f' Hle).
+      * destruct (dr_body f D inp (fst i) (snd i) [] (cl_body cl)) as [[v|k|] d1] eqn:E1.
+        -- now rewrite (IHb _ _ _ _ _ _ _ _ E1 ltac:(discriminate) f' Hle).
+        -- now rewrite (IHb _ _ _ _ _ _ _ _ E1 ltac:(discriminate) f' Hle).
+        -- pinv. congruence.
     + intros D inp me args locs rest r d H Hr f' Hle. dfuel f'.
       destruct rest as [|s more]; simpl in *; [assumption|].
       destruct s as [e|e h].
